@@ -85,7 +85,13 @@ fn main() {
     let ctx: &'static Ctx = Box::leak(Box::new(Ctx::new(prop, tier, false)));
     let r = std::panic::catch_unwind(|| run(ctx));
     let code = match r {
-        Ok((level, coverage, assumptions)) => ctx.finish(level, coverage, assumptions),
+        Ok((level, coverage, assumptions)) => {
+            if s3sim::HANDLER_PANICS.load(std::sync::atomic::Ordering::SeqCst) > 0 {
+                eprintln!("MACHINERY: the S3 simulator's handler panicked; results are not trustworthy");
+                std::process::exit(3);
+            }
+            ctx.finish(level, coverage, assumptions)
+        }
         Err(_) => {
             let p = ESCAPED_PANIC.lock().ok().and_then(|g| g.clone()).unwrap_or_else(|| "<unknown panic>".into());
             if p.contains("/repo/") {
